@@ -591,7 +591,7 @@ class XCodeBackend(backends.Backend):
         self.target_dependency_map: T.Dict[T.Union[str, T.Tuple[str, str]], str] = {}
         for tname, t in self.build_targets.items():
             for target in t.link_targets:
-                k = (tname, target.get_basename())
+                k = (tname, target.get_id())
                 assert k not in self.target_dependency_map
                 self.target_dependency_map[k] = self.gen_id()
         for tname, t in self.custom_targets.items():
